@@ -2,7 +2,7 @@
    Model: Model/Afssh.v (one nuclear dimension at a time; eigh(W) is an oracle whose answer
    enters as data — Hermiticity needs NO property of it); proofs: Proof/AfsshP.v. *)
 From Coq Require Import Reals List Lra.
-From MV Require Import Ops RInst Vec Cplx Mat CRing MatP Propagate PropagateP Rk4P Afssh AfsshP.
+From MV Require Import Ops RInst Vec Cplx Mat CRing MatP Propagate PropagateP Rk4P Afssh AfsshP CollapseP.
 Import ListNotations.
 Open Scope R_scope.
 
@@ -53,6 +53,26 @@ Theorem C11_collapse : forall n k, (k < n)%nat ->
   /\ (forall i j, (i < n)%nat -> (j < n)%nat -> mget ROps (zero_mat ROps n) i j = c0 ROps).
 Proof. exact collapse_state. Qed.
 Print Assumptions C11_collapse.
+
+(* the collapse decision (Model/Afssh.gamma_collapse, collapse_scan; tied to gamma_collapse() and the loop in
+   surface_hopping by Run/R11.chkG/chkS): the active state's own rate is exactly zero; the loop draws exactly one
+   uniform per non-active state whatever it decides; without a positive rate nothing collapses; a collapse leaves
+   the pure active state and zero moments *)
+Theorem C11_collapse_decision : forall n (dR dP F : list (list R)) k dt (gam us : list R) rho (dRs dPs : list (mat (T:=R))),
+  (k < n)%nat ->
+  nth k (gamma_collapse ROps n dR dP F k dt) 0 = 0
+  /\ ((k < length gam)%nat -> (length gam - 1 <= length us)%nat ->
+        length (snd (collapse_scan ROps gam k 0 us)) = (length us - (length gam - 1))%nat)
+  /\ ((forall j g, nth_error gam j = Some g -> j <> k -> g <= 0) -> Forall (fun e => 0 <= e) us ->
+        fst (collapse_scan ROps gam k 0 us) = false)
+  /\ collapse_apply ROps n k true rho dRs dPs
+       = (collapse_rho ROps n k, map (fun _ => zero_mat ROps n) dRs, map (fun _ => zero_mat ROps n) dPs).
+Proof.
+  intros n dR dP F k dt gam us rho dRs dPs Hk. split; [apply gamma_self_zero; exact Hk|]. split.
+  - intros Hg Hu. apply collapse_scan_consumes; [cbn; split; [apply Nat.le_0_l | exact Hg] | exact Hu].
+  - split; [|reflexivity]. intros Hg Hu. apply collapse_scan_none; [|exact Hu]. intros j g Hj Hne. apply (Hg j g Hj). cbn in Hne. exact Hne.
+Qed.
+Print Assumptions C11_collapse_decision.
 
 (* PARTIAL: agreement of the two moment integrators as dt -> 0 (both solve the same linear
    ODE; exp exactly for a frozen generator, rk4 to fourth order) is not mechanised; measured. *)
